@@ -1,0 +1,7 @@
+//go:build !verif
+
+package file
+
+// crashPoint marks a point just before (or, for "-written" sites, just after) a file-system
+// mutation.  It does nothing unless built with the verif tag.
+func crashPoint(site, path string) {}
